@@ -27,7 +27,20 @@ MANY = {"VA": ["many"], "VB": ["many"], "VC": ["peers"], "VW": ["peers"], "VM": 
 def build(case):
     cls, rec = case["cls"], case["rec"]
     objs = {}
-    for i, c in enumerate(cls, 1):
+    root = case.get("root")
+    for n, c in enumerate(cls, 1):
+        # twins: two distinct objects of one class (none of them the root) carry the same scalar values - they stay two objects
+        i = n
+        if case.get("twins") and n != root:
+            i = min(j for j in range(1, n + 1) if j != root and cls[j - 1] == c)
+        objs[n] = build_one(c, i)
+    link(cls, rec, objs)
+    return objs
+
+
+def build_one(c, i):
+    objs = {}
+    if True:
         if c in ("A", "B"):
             kw = dict(name=f"o{i}", kind=Kind.Y if i % 2 else Kind.X, when=datetime(2020, 1, i, 12, 30) if i != 2 else None,
                       nums=[i, i + 1] if i != 3 else [], weight=i * 0.5 if i != 1 else None, k=VK(i) if i != 2 else None,
@@ -43,6 +56,10 @@ def build(case):
             objs[i] = VY(label=f"y{i}", extra=200 + i)
         else:
             objs[i] = VM(label=f"m{i}")
+    return objs[i]
+
+
+def link(cls, rec, objs):
     for i, r in enumerate(rec, 1):
         o = objs[i]
         if cls[i - 1] in ("A", "B"):
@@ -53,7 +70,6 @@ def build(case):
             o.pets = [objs[x] for x in r["pets"]]
         else:
             o.ref = objs.get(r["ref"])
-    return objs
 
 
 def iso(a, b, as_sets=False):
@@ -171,6 +187,23 @@ def _c05(case):
                 loaded = mine[0].from_dao()
                 diffs[dn] = iso(root, loaded, as_sets=True)
         out["diffs"] = diffs
+        # a loaded copy is modified in memory (never written back); loading the rows again in a fresh session must still
+        # give the stored values
+        if isinstance(root, VC) and (root.j1 is not None or root.j2 is not None):
+            dn = chain[0]
+            with Session(engine) as s4:
+                mine = [d for d in s4.scalars(select(getattr(gen, dn))).all() if d.tag == root.tag]
+                if len(mine) == 1:
+                    first = mine[0].from_dao()
+                    for j in (first.j1, first.j2):
+                        if j is not None:
+                            j.x = "modified in memory"
+                            if isinstance(j.y, list):
+                                j.y.append("modified in memory")
+            with Session(engine) as s5:
+                mine = [d for d in s5.scalars(select(getattr(gen, dn))).all() if d.tag == root.tag]
+                if len(mine) == 1:
+                    out["diff_after_modifying_a_loaded_copy"] = iso(root, mine[0].from_dao(), as_sets=True)
         # several top-level from_dao calls that share one (initially empty) conversion state: what they have in common
         # must be one object
         with Session(engine) as s3:
